@@ -454,6 +454,11 @@ def run(ctx):
         nl += 1
         C.check(ok, 'C09-FLOW-progress', 'merge_element|loop#%d' % nl, 'a cycle of the pairwise merge walk advances neither iterator (hang on load)', me.where((h, 0)), sample={'fn': 'merge_element', 'loop_exit_vars': ev} if nl == 1 else None)
     C.floor('C09-FLOW-progress.loops', nl, 1)
+    # every file is written with ITS OWN version: the root element (and its schema location) is shared by all files of the model, so the
+    # header is refreshed from the file's version inside serialize(), on every path - not where some file's version last changed
+    C.rule('C09-MUST-header', 'ArxmlFile::serialize rewrites the schema location of the shared root element from the version of the file being written, on every path before the text is produced (shared with C17-MUST-header)')
+    from c17 import header_rule
+    header_rule(C, P, 'C09-MUST-header')
     return C.finish('Structural necessary conditions of a correct merge on the MIR of merge_element / import_new_items / merge_sub_elements / merge_file_data / calc_identifiables_merge: '
                     'guarded additions to the import list, dominance of the bookkeeping steps before insertion, order of the membership update relative to the recursion, provenance of the version that decides split points, '
                     'propagation of merge errors, loop progress. Union and order independence are not decided.')
